@@ -121,8 +121,8 @@ def case_fs(idx, rng, tier, res):
         exts = {'any': exts_any, 'py': ['.py'], 'pkg': ['.py']}.get(kind, [])
         listing = {}
         # populate
-        shapes = rng.sample(['exact', 'dir', 'otherext', 'othercase', 'second', 'prefix', 'none'],
-                            rng.randint(1, 3))
+        shapes = rng.sample(['exact', 'dir', 'otherext', 'othercase', 'second', 'prefix', 'none'] +
+                            (['pyc'] if kind in ('py', 'pkg') else []), rng.randint(1, 3))
         def mk(fn, mtime, as_dir=False):
             p = os.path.join(d, fn)
             if os.path.exists(p):
@@ -163,9 +163,11 @@ def case_fs(idx, rng, tier, res):
             d_files = d
         real_d = d
         d = d_files
-        for sh in shapes:
+        for sh in sorted(shapes, key=lambda x: x == 'pyc'):     # byte code is compiled last
             delta = rng.choice([-1, 0, 1, -1000, 1000])
             mt = max(0, src_mtime + delta)
+            if sh == 'pyc' and listing.get(name + '.py', ('', 0))[0] == 'file':
+                mt = listing[name + '.py'][1]       # byte code carries the stamp of its module
             if sh == 'exact' and exts:
                 mk(name + rng.choice(exts), mt)
             elif sh == 'dir' and exts:
@@ -179,6 +181,21 @@ def case_fs(idx, rng, tier, res):
             elif sh == 'second' and len(exts) > 1:
                 mk(name + exts[0], max(0, src_mtime - 5))
                 mk(name + exts[1], src_mtime + rng.choice([0, 3]))
+            elif sh == 'pyc' and kind in ('py', 'pkg'):
+                # a byte-code file next to (or instead of) the module, stamped like the module itself
+                import py_compile
+                srcf = os.path.join(real_d, 'pyc-source-%d.py' % idx)
+                with open(srcf, 'w') as f:
+                    f.write('x = 1\n')
+                os.utime(srcf, (mt, mt))
+                py_compile.compile(srcf, cfile=os.path.join(d, name + '.pyc'), doraise=True,
+                                   invalidation_mode=py_compile.PycInvalidationMode.TIMESTAMP)
+                os.remove(srcf)
+                os.utime(os.path.join(d, name + '.pyc'), (mt, mt))
+                listing[name + '.pyc'] = ('file', mt)
+                if rng.random() < 0.6:
+                    mk(name + '.py', mt)
+                res.count('bytecode_files_next_to_modules')
             elif sh == 'prefix' and exts:
                 mk(name + 'X' + exts[0], mt)
                 mk('X' + name + exts[0], mt)
@@ -214,7 +231,7 @@ def case_fs(idx, rng, tier, res):
         elif rebuild:
             want = 'returned'
         else:
-            want = reference(listing, name, exts, src_mtime)
+            want = reference(listing, name, exts + (['.pyc'] if 'pyc' in shapes else []), src_mtime)
         cell = {'searcher': kind, 'name': name, 'src_mtime': src_mtime, 'exts': exts,
                 'listing': listing, 'rebuild': rebuild}
         if got != want:
